@@ -55,8 +55,8 @@ Emit ==
                                firstWins |-> Verdict("firstWins")])>>, "supportcases.ndjson")
 
 Gates ==
-    { [proto |-> p, n |-> N, h |-> h, q |-> q, threshold |-> ThresholdP(p, h, q)] :
-        p \in Protos, h \in Hs, q \in Qs }   \* all pairs, also h > q: the code does not care
+    { [proto |-> p, n |-> N, h |-> h, q |-> q, m |-> m, threshold |-> ThresholdP(p, h, q)] :
+        p \in Protos, h \in Hs, q \in Qs, m \in 1..N }   \* all triples; the harness uses m >= q (beacon: m = N)
 
 EmitGates == CSVWrite("%1$s", <<ToJson(Gates)>>, "gates.ndjson")
 =============================================================================
